@@ -328,7 +328,10 @@ func r02_2(c *Ctx) {
 				break
 			}
 			for i, wc := range seq {
-				arg := p.St.resolve(wc.call.Common().Args[0])
+				var arg ssa.Value
+				if args := wc.call.Common().Args; len(args) > 0 {
+					arg = p.St.resolve(args[0])
+				}
 				switch i {
 				case 0:
 					if !(wc.kind == "Write" && !isNewline(arg)) {
